@@ -439,7 +439,7 @@ func (r *R) Gen(ctx sdk.Context, g *hx.Rng) string {
 		case 3: // one owner collects more than a query page (100) of tokens of one class, then one is moved and one burnt
 			c := pickClass()
 			to := r.acc(g)
-			n := 101 + g.Intn(4)
+			n := 125 + g.Intn(4) // one in twelve lines is a ghost execution: enough to pass a page of 100 regardless
 			for i := 1; i < n; i++ {
 				r.queue = append(r.queue, mintLine(c.creator, to, c.id, fmt.Sprintf("b%03d", i), "", "", "", ""))
 			}
